@@ -153,7 +153,7 @@ fn path_strings(rng: &mut Rng) -> Vec<(String, &'static str)> {
     v
 }
 
-const OPS: [&str; 14] = ["list", "tree", "open", "create-file", "create-dir", "write", "rename-from", "rename-to", "delete", "search", "format", "diagnostics", "symbols", "rename-symbol"];
+const OPS: [&str; 19] = ["list", "tree", "open", "create-file", "create-dir", "write", "rename-from", "rename-to", "delete", "search", "format", "diagnostics", "symbols", "workspace-symbols", "rename-symbol", "rename-symbol-with-buffer", "definition", "references", "hover"];
 
 struct Sessions {
     editor: String,
@@ -193,6 +193,12 @@ fn call(st: &WebIdeState, op: &str, tok: &str, path: &str, write_enabled: bool) 
         "format" => st.format_source(tok, path, None).map(|v| format!("{v:?}")),
         "diagnostics" => st.diagnostics(tok, path, None).map(|v| format!("{v:?}")),
         "symbols" => st.file_symbols(tok, path, "", 50).map(|v| format!("{v:?}")),
+        // symbol-level operations: the position (0, 9) is the POU name in every .st file of the sentinel tree
+        "rename-symbol" => st.rename_symbol(tok, path, None, trust_wasm_analysis::Position { line: 0, character: 9 }, "RenamedByC19", write_enabled).map(|v| format!("{v:?}")),
+        "rename-symbol-with-buffer" => st.rename_symbol(tok, path, Some("PROGRAM Main\nVAR x : INT; END_VAR\nx := x + 2; (* unsaved buffer *)\nEND_PROGRAM\n".into()), trust_wasm_analysis::Position { line: 0, character: 9 }, "RenamedByC19", write_enabled).map(|v| format!("{v:?}")),
+        "definition" => st.definition(tok, path, None, trust_wasm_analysis::Position { line: 0, character: 9 }).map(|v| format!("{v:?}")),
+        "references" => st.references(tok, path, None, trust_wasm_analysis::Position { line: 0, character: 9 }, true).map(|v| format!("{v:?}")),
+        "hover" => st.hover(tok, path, None, trust_wasm_analysis::Position { line: 0, character: 9 }).map(|v| format!("{v:?}")),
         _ => st.workspace_symbols(tok, "Outside", 50).map(|v| format!("{v:?}")),
     };
     match r {
